@@ -164,6 +164,15 @@ class Analysis:
                     ne.add(lhs); changed = True
         return ne
 
+    def pattern_of_terminal(self, name):
+        src = open(self.gen).read()
+        pats = lexl.patterns(self.gen)
+        t = self.T.terms.index(name)
+        m = re.search(r'Token\((\d+), _\) if true => Some\(%d\),' % t, src)
+        if not m:
+            raise Unsupported('terminal %s not found in __token_to_integer' % name)
+        return pats[int(m.group(1))][0]
+
     def feasible(self, rhs, conds):
         for c in conds:
             if c[0] == 'isempty':
@@ -298,6 +307,8 @@ class Analysis:
         # panic arms: infeasible for every word of the token's pattern
         dirpat = [p for p, _s in pats if set(lexl.literal_alternatives(p) or []) == {'in', 'out', 'inout'}]
         for pc, what in self.E.panics:
+            if any(c[0] == 'parse_ok' for c in pc):
+                continue
             toks = [c for c in pc if c[0] == 'cond' and c[1][0] == 'streq' and c[1][1][0] == 'tok' and c[1][2][0] == 'lit']
             if len(toks) != len(pc) or len(dirpat) != 1:
                 viol.setdefault('panic-arm', []).append({'where': what, 'conds': [str(c)[:80] for c in pc][:4]}); continue
@@ -312,6 +323,26 @@ class Analysis:
             r = s.check()
             if r != z3.unsat:
                 viol.setdefault('panic-arm-reachable', []).append({'where': what, 'word': str(s.model().eval(w, True)) if r == z3.sat else 'unknown'})
+        # `.parse::<uN>().expect(..)` / unwrap on a token: the Err arm must be infeasible for every word of the token's pattern
+        for pc, what in self.E.panics:
+            po = [c for c in pc if c[0] == 'parse_ok' and c[2] is False]
+            if not po:
+                continue
+            tok = po[0][1][1]
+            ty = po[0][1][2] if len(po[0][1]) > 2 else '?'
+            lim = {'u8': 2 ** 8, 'u16': 2 ** 16, 'u32': 2 ** 32, 'u64': 2 ** 64, 'usize': 2 ** 64, 'i32': 2 ** 31, 'i64': 2 ** 63}.get(ty)
+            w = z3.String('w')
+            s = z3.Solver(); s.set('timeout', 30000)
+            import layout
+            # which lexer pattern produces the terminal is read from the generated `__token_to_integer`
+            s.add(z3.InRe(w, layout.regex_of(self.pattern_of_terminal('INTEGER'))))
+            if lim is None or not (isinstance(tok, tuple) and tok[0] == 'tok'):
+                viol.setdefault('panic-arm-reachable', []).append({'where': what, 'word': 'unsupported numeric type %s' % ty}); continue
+            s.add(z3.Or(z3.StrToInt(w) >= lim, z3.StrToInt(w) < 0))
+            nq += 1
+            r = s.check()
+            if r != z3.unsat:
+                viol.setdefault('panic-arm-reachable', []).append({'where': what, 'word': s.model().eval(w, True).as_string() if r == z3.sat else 'unknown', 'kind': 'transact-code'})
         # oneway flag and transact code
         for r, (lhs, rhs, res) in self.results.items():
             if lhs not in ('Method', 'Interface'):
